@@ -10,7 +10,7 @@
     * `potrf_orientation`   both branches (row-major / `stride(A) == 1`), both triangles, contiguous or padded
     * `geqrf_arguments`     the (m, n, a, lda) passed denote the transpose of the logical view, legally, inside the view
     * `gesvd_arguments`, `gesvd_reconstructs`   A = UU·diag(ss)·VV for the views handed over
-    * `syev_arguments`      (from the source text; syev.hpp does not compile at the pinned commit)
+    * `syev_arguments`, `syev_result`, `syev_overloads`, `syev_eigenpairs`   both branches of the repaired syev.hpp
 -/
 import MultiProofs.C01
 import MultiModel.Lapack
@@ -269,34 +269,180 @@ theorem geqrf_needs_unit_inner_stride (aa tau : View) (d0 d1 : Dim) (p q : Int) 
   rw [ha]; simp only [geqrfCall, colMajor]
   rw [t1] at hin; omega
 
-/-- **syev** (transcribed from the source text — syev.hpp does not compile at the pinned commit).  For a zero-based `n×n`
-    view: with unit inner stride LAPACK sees `aᵀ`, is told the opposite triangle character (so that it reads the LOGICAL
-    triangle `uplo`), and its eigenvector `k` (a column of LAPACK's matrix) is ROW `k` of the view; with unit leading
-    stride LAPACK sees `a` itself, the same triangle, and eigenvector `k` is COLUMN `k` of the view; any other layout
-    hits `assert(0)`. -/
+/-- **syev.**  For a zero-based `n×n` view: with unit inner stride LAPACK sees `aᵀ`, is told the opposite triangle character
+    (so that it reads the LOGICAL triangle `uplo`), and its eigenvector `k` (a column of LAPACK's matrix) is ROW `k` of the
+    view; with unit leading stride LAPACK sees `a` itself, the same triangle, and eigenvector `k` is COLUMN `k` of the view;
+    any other layout hits `assert(0)`.  In both branches `w`, `work` and `lwork = size(work)` are passed as given. -/
 theorem syev_arguments (uplo : Filling) (a w work : View) (d0 d1 : Dim) (n : Int) (hn : 0 < n)
     (hlay : a.lay = [d0, d1]) (hwf : a.lay.WF) (hext : a.exts = [⟨0, n⟩, ⟨0, n⟩]) :
     (a.stride1 = 1 → ∃ c, syevCall uplo a w work = some c ∧ c.jobz = 'V' ∧ c.n = n ∧ c.w = w.base ∧
+        c.work = work.base ∧ c.lwork = work.size ∧ c.lda = d0.stride ∧
         c.uplo = (match uplo with | .upper => 'L' | .lower => 'U') ∧
         ∀ i j : Nat, colMajor c.a c.lda i j = a.addr [(j : Int), (i : Int)]) ∧
     (a.stride1 ≠ 1 → a.stride0 = 1 → ∃ c, syevCall uplo a w work = some c ∧ c.jobz = 'V' ∧ c.n = n ∧ c.w = w.base ∧
+        c.work = work.base ∧ c.lwork = work.size ∧ c.lda = d1.stride ∧
         c.uplo = (match uplo with | .upper => 'U' | .lower => 'L') ∧
         ∀ i j : Nat, colMajor c.a c.lda i j = a.addr [(i : Int), (j : Int)]) ∧
     (a.stride1 ≠ 1 → a.stride0 ≠ 1 → syevCall uplo a w work = none) := by
   obtain ⟨ha, s0, _, t0, t1, _, _, _⟩ := matrix_view a d0 d1 n n hn hn hlay hwf hext
   refine ⟨?_, ?_, ?_⟩
   · intro h1
-    refine ⟨_, by unfold syevCall; rw [if_pos h1], rfl, s0, rfl, by cases uplo <;> simp, ?_⟩
+    refine ⟨_, by unfold syevCall; rw [if_pos h1], rfl, s0, rfl, rfl, rfl, t0, by cases uplo <;> simp, ?_⟩
     intro i j
     have e1 : d1.stride = 1 := by rw [← t1]; exact h1
     simp only [colMajor, t0]; rw [ha, e1]; omega
   · intro h1 h0
-    refine ⟨_, by unfold syevCall; rw [if_neg h1, if_pos h0], rfl, s0, rfl, by cases uplo <;> simp, ?_⟩
+    refine ⟨_, by unfold syevCall; rw [if_neg h1, if_pos h0], rfl, s0, rfl, rfl, rfl, t1, by cases uplo <;> simp, ?_⟩
     intro i j
     have e0 : d0.stride = 1 := by rw [← t0]; exact h0
     simp only [colMajor, t1]; rw [ha, e0]; omega
   · intro h1 h0
     unfold syevCall; rw [if_neg h1, if_neg h0]
+
+/-- the view `syev` returns, `a({0, n − info}, {0, n − info})`, is the leading `(n − info)`-block of `a` itself — the whole
+    view when LAPACK reports success (`info = 0`) -/
+theorem syev_result (a : View) (n info : Int) (hwf : a.lay.WF) (hext : a.exts = [⟨0, n⟩, ⟨0, n⟩]) (hn : 0 < n)
+    (d0 d1 : Dim) (hlay : a.lay = [d0, d1]) (hi : 0 ≤ info ∧ info ≤ n) :
+    (syevResult a info).exts = [Ext.norm ⟨0, n - info⟩, Ext.norm ⟨0, n - info⟩] ∧
+    (∀ idx, InBox [Ext.norm ⟨0, n - info⟩, Ext.norm ⟨0, n - info⟩] idx → (syevResult a info).addr idx = a.addr idx) ∧
+    (info = 0 → (syevResult a info).exts = a.exts) := by
+  obtain ⟨_, s0, _, _, _, _, _, _⟩ := matrix_view a d0 d1 n n hn hn hlay hwf hext
+  obtain ⟨⟨b1, b2⟩, _⟩ := leading_block a n (n - info) hwf hext (by omega)
+  have e : syevResult a info = a.paren [Arg.rng 0 (n - info), Arg.rng 0 (n - info)] := by simp only [syevResult, s0]
+  refine ⟨by rw [e]; exact b1, by rw [e]; exact b2, ?_⟩
+  intro h0
+  rw [e, b1, hext, h0]
+  have : Ext.norm ⟨0, n - 0⟩ = ⟨0, n⟩ := by unfold Ext.norm; simp; omega
+  rw [this]
+
+/-- the convenience overloads: the workspace they allocate satisfies the routine's own assertion, and the `const&`
+    overloads run on a fresh ROW-major copy (so they take the first branch and return eigenvectors as rows, whatever the
+    storage order of the input) -/
+theorem syev_overloads (a w : View) (n : Int) (hn : 0 < n) (hsz : a.size = n) (hexts : a.exts = [⟨0, n⟩, ⟨0, n⟩])
+    (hw : w.size = n ∧ w.stride0 = 1) (fb1 fb2 : Int) :
+    syevAsserts a w (syevAutoWork a fb1) = true ∧
+    (decayView a fb2).stride1 = 1 ∧ (decayView a fb2).stride0 = n ∧ (decayView a fb2).exts = [⟨0, n⟩, ⟨0, n⟩] := by
+  have hm : 0 < max 1 (3 * n - 1) := by omega
+  have e : syevAutoWork a fb1 = ⟨fb1, Layout.ofExts [⟨0, max 1 (3 * n - 1)⟩]⟩ := by simp only [syevAutoWork, hsz]
+  have hws : (syevAutoWork a fb1).size = max 1 (3 * n - 1) ∧ (syevAutoWork a fb1).stride0 = 1 := by
+    rw [e]
+    simp only [View.size, View.stride0, Layout.ofExts, Layout.numElements, Ext.size]
+    constructor
+    · have h := Dim.size_mk (s := 1) (f := 0) (n := max 1 (3 * n - 1)) (by omega) hm
+      simpa using h
+    · simp
+  refine ⟨?_, ?_, ?_, ?_⟩
+  · simp only [syevAsserts, Bool.and_eq_true, decide_eq_true_eq, beq_iff_eq]
+    rw [hws.1, hws.2, hsz, hw.1, hw.2]
+    exact ⟨⟨⟨by omega, rfl⟩, rfl⟩, rfl⟩
+  · have e2 : decayView a fb2 = ⟨fb2, Layout.ofExts [⟨0, n⟩, ⟨0, n⟩]⟩ := by simp only [decayView, hexts]
+    rw [e2]; simp [View.stride1, Layout.ofExts, Layout.numElements]
+  · have e2 : decayView a fb2 = ⟨fb2, Layout.ofExts [⟨0, n⟩, ⟨0, n⟩]⟩ := by simp only [decayView, hexts]
+    have : n ≠ 0 := by omega
+    rw [e2]; simp [View.stride0, Layout.ofExts, Layout.numElements, Dim.size, Ext.size, this]
+  · have e2 : decayView a fb2 = ⟨fb2, Layout.ofExts [⟨0, n⟩, ⟨0, n⟩]⟩ := by simp only [decayView, hexts]
+    have := (C01.root_denotes [⟨0, n⟩, ⟨0, n⟩] (by intro e he; simp at he; rcases he with rfl | rfl <;> simp <;> omega)).2.1
+    rw [e2]; show (Layout.ofExts [⟨0, n⟩, ⟨0, n⟩]).exts = _
+    rw [this]
+    have hnn : n * n ≠ 0 := Int.ne_of_gt (Int.mul_pos hn hn)
+    have hn0 : n ≠ 0 := by omega
+    simp [collapse, nElems, Ext.size, hnn, hn0]
+
+section
+variable {R : Type} [CommRing R]
+
+/-- the symmetric matrix a view denotes through its selected triangle -/
+def symOf (uplo : Filling) (A : Nat → Nat → R) (i j : Nat) : R :=
+  match uplo with
+  | .upper => if i ≤ j then A i j else A j i
+  | .lower => if j ≤ i then A i j else A j i
+
+/-- **syev computes eigenpairs of the LOGICAL symmetric matrix.**  Under LAPACK's contract for the call made, with
+    `S = symOf uplo (a before)`: in the unit-inner-stride branch ROW `k` of `a` is an eigenvector,
+    `Σ_j S(i,j)·a'[k][j] = w'[k]·a'[k][i]`; in the unit-leading-stride branch COLUMN `k` is,
+    `Σ_j S(i,j)·a'[j][k] = w'[k]·a'[i][k]` — for either triangle, contiguous or padded. -/
+theorem syev_eigenpairs (uplo : Filling) (a w work : View) (d0 d1 wd : Dim) (n : Int) (hn : 0 < n)
+    (hlay : a.lay = [d0, d1]) (hwf : a.lay.WF) (hext : a.exts = [⟨0, n⟩, ⟨0, n⟩])
+    (hwl : w.lay = [wd]) (hwwf : w.lay.WF) (hwe : w.exts = [⟨0, n⟩]) (hws : w.stride0 = 1)
+    (c : SyevCall) (hc : syevCall uplo a w work = some c) (mem mem' : Int → R) (hpost : SyevPost c mem mem') :
+    let A0 := fun (p q : Nat) => mem (a.addr [p, q])
+    let A1 := fun (p q : Nat) => mem' (a.addr [p, q])
+    let W := fun (k : Nat) => mem' (w.addr [k])
+    (a.stride1 = 1 → ∀ i k : Nat, (i : Int) < n → (k : Int) < n →
+      sumTo n.toNat (fun j => symOf uplo A0 i j * A1 k j) = W k * A1 k i) ∧
+    (a.stride1 ≠ 1 → ∀ i k : Nat, (i : Int) < n → (k : Int) < n →
+      sumTo n.toNat (fun j => symOf uplo A0 i j * A1 j k) = W k * A1 i k) := by
+  intro A0 A1 W
+  obtain ⟨r1, r2, r3⟩ := syev_arguments uplo a w work d0 d1 n hn hlay hwf hext
+  -- the eigenvalue vector: w[k] is at w.base + k
+  have hwaddr : ∀ k : Int, w.addr [k] = w.base + k := by
+    intro k
+    rw [addr_eq, hwl]
+    rw [hwl] at hwwf
+    have e : wd.ext = ⟨0, n⟩ := by
+      simp only [View.exts, hwl, Layout.exts, List.map_cons, List.map_nil, List.cons.injEq, and_true] at hwe; exact hwe
+    have hst : wd.stride = 1 := by simpa [View.stride0, hwl] using hws
+    rcases hwwf.head.cases with h0 | ⟨f, m, _, _, hf, _, he, _⟩
+    · rw [Dim.ext_of_nelems_zero h0] at e; simp at e; omega
+    · rw [he] at e; simp at e
+      simp only [Layout.off, hf, hst, e.1]; omega
+  constructor
+  · intro h1 i k hi hk
+    obtain ⟨c', e1, _, e3, e4, _, _, _, e8, e9⟩ := r1 h1
+    rw [hc] at e1; cases e1
+    have hp := hpost i k (by rw [e3]; exact hi) (by rw [e3]; exact hk)
+    rw [e3] at hp
+    simp only [A0, A1, W]
+    rw [hwaddr k, ← e4, ← e9 i k]
+    rw [← hp]
+    apply sumTo_congr
+    intro j _
+    rw [← e9 j k]
+    congr 1
+    cases uplo
+    · -- lower: character 'U'
+      simp only [symOf, e8]
+      rw [e9 i j, e9 j i]
+      by_cases hji : j ≤ i
+      · by_cases hij : i ≤ j
+        · have : i = j := by omega
+          subst this; simp
+        · simp [hji, hij]
+      · have hij : i ≤ j := by omega
+        simp [hji, hij]
+    · -- upper: character 'L'
+      simp only [symOf, e8]
+      rw [e9 i j, e9 j i]
+      by_cases hij : i ≤ j
+      · by_cases hji : j ≤ i
+        · have : i = j := by omega
+          subst this; simp
+        · simp [hji, hij]
+      · have hji : j ≤ i := by omega
+        simp [hji, hij]
+  · intro h1 i k hi hk
+    by_cases h0 : a.stride0 = 1
+    · obtain ⟨c', e1, _, e3, e4, _, _, _, e8, e9⟩ := r2 h1 h0
+      rw [hc] at e1; cases e1
+      have hp := hpost i k (by rw [e3]; exact hi) (by rw [e3]; exact hk)
+      rw [e3] at hp
+      simp only [A0, A1, W]
+      rw [hwaddr k, ← e4, ← e9 i k]
+      rw [← hp]
+      apply sumTo_congr
+      intro j _
+      rw [← e9 j k]
+      congr 1
+      cases uplo
+      · simp only [symOf, e8]
+        rw [e9 i j, e9 j i]
+        simp
+      · simp only [symOf, e8]
+        rw [e9 i j, e9 j i]
+        simp
+    · rw [r3 h1 h0] at hc; cases hc
+
+end
 
 /-! non-vacuity: a padded 3×3 row-major block and its transpose satisfy the hypotheses of `potrf_orientation`, and the two
     calls differ exactly by the flipped character and the same leading dimension -/
